@@ -10,6 +10,12 @@
 // Storage faults: the database handed to ibft/storage is wrapped (crashDB). Per step it can (a) kill the process right
 // before its (k+1)-th Set (crash points between the writes of one save) and (b) make chosen Sets FAIL: the write
 // attempts named by the step's fault plan (1 = the first Set the call makes) return an error and write nothing.
+// (c) force an outcome on chosen Gets, by read attempt of the call (1 = its first Get): "err" (the error shape of the real
+// badger wrapper: found=true + error), "empty" (not found although the record is there), "garbage" (a truncated record,
+// which does not decode). The code reads in two places: Validator.Start -> LoadHighestInstance and, on a full node,
+// InstanceForHeight for a height that is not in memory. The harness's own reads (monitors, projection) bypass the wrapper.
+// Duties are started the way the node does it: an ExecuteDuty event through Validator.ProcessMessage -> OnExecuteDuty
+// (which calls Validator.Start again - a no-op once started - and then StartDuty).
 //
 //	-mode replay : replays NDJSON behaviours (TLC state-graph cover, simulations, attack / finding traces), compares the
 //	               real projection with the spec state after every step (divergence) and evaluates the C15 monitors
@@ -156,9 +162,10 @@ func (subNet) Subscribe(spectypes.ValidatorPK) error { return nil }
 
 // spyStore wraps the real ibft storage; every write is checked against what the real store held before it.
 type spyStore struct {
-	qbftstorage.QBFTStore
-	w     *world
-	quiet bool // the throw-away reopen used by the restart probe
+	qbftstorage.QBFTStore                       // the store the code uses: through the fault-injecting crashDB
+	raw                   qbftstorage.QBFTStore // the same records read past the wrapper (monitors only)
+	w                     *world
+	quiet                 bool // the throw-away reopen used by the restart probe
 }
 
 func certOf(si *qbftstorage.StoredInstance) (h, r, n int) {
@@ -175,19 +182,36 @@ func certOf(si *qbftstorage.StoredInstance) (h, r, n int) {
 // The checks compare the record about to be written with what the real store holds; they return the verdict as a
 // closure that the caller runs only once the write has taken effect (a write that failed replaced nothing).
 func (s *spyStore) checkHighest(si *qbftstorage.StoredInstance, call string) func() {
-	old, err := s.QBFTStore.GetHighestInstance(msgID[:])
+	old, err := s.raw.GetHighestInstance(msgID[:])
 	if err != nil || old == nil {
 		return func() {}
 	}
 	oh, or, on := certOf(old)
 	nh, nr, nn := certOf(si)
 	w := s.w
+	// An incarnation that Validator.Start started although (or because the database denied that) a highest instance
+	// is stored writes "highest" records blindly as long as its controller has not passed the stored height.
+	blind := w.load != "ok" && int(w.p.ctrl.Height) <= oh
+	viol := func(sig, desc string) {
+		switch {
+		case blind && w.load == "err":
+			w.downgraded = "err"
+			w.res.Violate("stored-overwritten-after-failed-highest-read", desc+fmt.Sprintf(" - by a validator that was started although the load of its highest instance (height %d) had FAILED", w.loadMax), w.beh, w.step)
+		case blind:
+			if w.downgraded == "" {
+				w.downgraded = "empty"
+			}
+			w.res.Counters["obs_overwrite_after_empty_highest_read"]++
+		default:
+			w.res.Violate(sig, desc, w.beh, w.step)
+		}
+	}
 	return func() {
 		switch {
 		case nh < oh:
-			w.res.Violate("highest-replaced-by-lower-height", fmt.Sprintf("%s: stored highest instance (height %d, round %d, %d signers) replaced by one for the lower height %d", call, oh, or, on, nh), w.beh, w.step)
+			viol("highest-replaced-by-lower-height", fmt.Sprintf("%s: stored highest instance (height %d, round %d, %d signers) replaced by one for the lower height %d", call, oh, or, on, nh))
 		case nh == oh && nn < on:
-			w.res.Violate("highest-replaced-by-fewer-signers", fmt.Sprintf("%s: stored highest instance of height %d (certificate of round %d, %d signers) replaced by a certificate of round %d with %d signers", call, oh, or, on, nr, nn), w.beh, w.step)
+			viol("highest-replaced-by-fewer-signers", fmt.Sprintf("%s: stored highest instance of height %d (certificate of round %d, %d signers) replaced by a certificate of round %d with %d signers", call, oh, or, on, nr, nn))
 		case nh == oh && nn == on && nr != or:
 			w.res.Counters["obs_highest_replaced_by_equal_signers"]++
 		}
@@ -200,9 +224,9 @@ func (s *spyStore) wrote(si *qbftstorage.StoredInstance, highest bool) bool {
 	var err error
 	h, r, n := certOf(si)
 	if highest {
-		now, err = s.QBFTStore.GetHighestInstance(msgID[:])
+		now, err = s.raw.GetHighestInstance(msgID[:])
 	} else {
-		now, err = s.QBFTStore.GetInstance(msgID[:], specqbft.Height(h))
+		now, err = s.raw.GetInstance(msgID[:], specqbft.Height(h))
 	}
 	if err != nil || now == nil {
 		return false
@@ -213,13 +237,14 @@ func (s *spyStore) wrote(si *qbftstorage.StoredInstance, highest bool) bool {
 
 func (s *spyStore) checkHistorical(si *qbftstorage.StoredInstance, call string) func() {
 	nh, nr, nn := certOf(si)
-	old, err := s.QBFTStore.GetInstance(msgID[:], specqbft.Height(nh))
+	old, err := s.raw.GetInstance(msgID[:], specqbft.Height(nh))
 	w := s.w
 	verdict := func() {}
 	if err == nil && old != nil {
 		_, or, on := certOf(old)
 		if nn < on {
 			sig := "historical-replaced-by-fewer-signers"
+			obsOnly := ""
 			// Recorded finding, kept narrow: the height was learned through a LATE decided message (below the
 			// controller height of an earlier incarnation, so it never became the stored highest), it lies above the
 			// stored highest found at the last restart, the restarted runner started it again, and this is the
@@ -228,7 +253,28 @@ func (s *spyStore) checkHistorical(si *qbftstorage.StoredInstance, call string) 
 				sig = "history-overwritten-by-rerun-after-restart"
 			}
 			desc := fmt.Sprintf("%s: historical instance of height %d (certificate of round %d, %d signers) replaced by a certificate of round %d with %d signers", call, nh, or, on, nr, nn)
-			verdict = func() { w.res.Violate(sig, desc, w.beh, w.step) }
+			// Storage reads that did not deliver the record, narrow:
+			// (1) the read of InstanceForHeight inside THIS call failed ("err"/"garbage": the code saw an error and
+			//     went on) or was answered not-found ("empty": nobody's fault) - the record was not seen;
+			// (2) the height was started again by a validator that was started although the load of its highest
+			//     instance had failed / was denied, at or below the height that was stored then.
+			switch kind := w.db.firedRead(); {
+			case kind == "err" || kind == "garbage":
+				sig = "historical-overwritten-after-failed-instance-read"
+				desc += fmt.Sprintf(" - after the storage read of InstanceForHeight(%d) in the same call failed (%s)", nh, kind)
+			case kind == "empty":
+				obsOnly = "obs_historical_overwritten_after_empty_instance_read"
+			case w.load == "err" && nh <= w.loadMax && w.startedInc[nh] && !w.histInc[nh]:
+				sig = "stored-overwritten-after-failed-highest-read"
+				desc += fmt.Sprintf(" - the height was run again by a validator that was started although the load of its highest instance (height %d) had FAILED", w.loadMax)
+			case w.load == "empty" && nh <= w.loadDenied && w.startedInc[nh] && !w.histInc[nh]:
+				obsOnly = "obs_overwrite_after_empty_highest_read"
+			}
+			if obsOnly != "" {
+				verdict = func() { w.res.Counters[obsOnly]++ }
+			} else {
+				verdict = func() { w.res.Violate(sig, desc, w.beh, w.step) }
+			}
 		}
 	}
 	return func() {
@@ -291,9 +337,10 @@ func (s *spyStore) saveErr(err error) {
 }
 
 type proc struct {
-	v    *validator.Validator
-	r    *runner.AttesterRunner
-	ctrl *controller.Controller
+	v        *validator.Validator
+	r        *runner.AttesterRunner
+	ctrl     *controller.Controller
+	startErr error // Validator.Start returned an error (the pinned code never does for a failed load)
 }
 
 type world struct {
@@ -308,7 +355,11 @@ type world struct {
 	// monitor bookkeeping, from real outputs only
 	restarts   int
 	incMax     int          // highest height started / learned as decided by this incarnation (-1 none)
-	loadMax    int          // stored highest height found at the last restart (-1 none)
+	loadMax    int          // stored highest height the last restart answers for (-1: none, or the database denied it)
+	load       string       // how the last Validator.Start loaded: "ok" | "err" (the store reported an error) | "empty"
+	downgraded string       // "err" / "empty": an incarnation started on such a highest read has overwritten the highest record by a lower one
+	bootHit    bool         // the forced read outcome of the last restart inside crashing() was hit
+	loadDenied int          // load == "empty": the stored highest height the database denied (-1 otherwise)
 	everDec    int          // highest height ever learned as decided (observation only)
 	startedInc map[int]bool // heights successfully started by this incarnation
 	certTop    int          // highest height this incarnation learned from a completely processed, timely decided message
@@ -334,9 +385,66 @@ type crashDB struct {
 	failAt  map[int]bool
 	attempt int
 	fired   []int
+
+	// forced read outcomes by read attempt (1 = the first Get since planReads): "ok" | "err" | "empty" | "garbage"
+	rplan    []string
+	rattempt int
+	rfired   []string
 }
 
-var errInjected = errors.New("verif: injected storage write failure")
+func (d *crashDB) planReads(kinds []string) { d.rplan, d.rattempt, d.rfired = kinds, 0, []string{} }
+
+func (d *crashDB) unplanReads() (fired []string) {
+	fired = d.rfired
+	d.rplan, d.rattempt, d.rfired = nil, 0, nil
+	return
+}
+
+// firedRead: the forced outcome that a read of the current call was given ("" = none)
+func (d *crashDB) firedRead() string {
+	if len(d.rfired) == 0 {
+		return ""
+	}
+	return d.rfired[0]
+}
+
+// Get is the read the code makes (ibftStorage.get). The error shape is the one of kv.badgerTxn.Get: found = true
+// together with the error; a record that is not there is found = false without an error.
+func (d *crashDB) Get(prefix []byte, key []byte) (basedb.Obj, bool, error) {
+	if d.rplan == nil {
+		return d.Database.Get(prefix, key)
+	}
+	d.rattempt++
+	kind := "ok"
+	if d.rattempt <= len(d.rplan) {
+		kind = d.rplan[d.rattempt-1]
+	}
+	switch kind {
+	case "err":
+		d.rfired = append(d.rfired, kind)
+		return basedb.Obj{}, true, errInjectedRead
+	case "empty":
+		d.rfired = append(d.rfired, kind)
+		return basedb.Obj{}, false, nil
+	case "garbage":
+		d.rfired = append(d.rfired, kind)
+		obj, found, err := d.Database.Get(prefix, key)
+		if err != nil {
+			return obj, found, err
+		}
+		if !found {
+			return basedb.Obj{Key: key, Value: []byte("{\"State\":")}, true, nil
+		}
+		obj.Value = obj.Value[:len(obj.Value)/2] // a torn record
+		return obj, true, nil
+	}
+	return d.Database.Get(prefix, key)
+}
+
+var (
+	errInjected     = errors.New("verif: injected storage write failure")
+	errInjectedRead = errors.New("verif: injected storage read failure")
+)
 
 func (d *crashDB) arm(k int) { d.armed, d.left, d.sets = true, k, 0 }
 func (d *crashDB) disarm()   { d.armed = false }
@@ -404,24 +512,31 @@ func newWorld(full bool, res *vh.Result, beh string) *world {
 	}
 	worldSeq++
 	w := &world{full: full, db: sharedDB, prefix: fmt.Sprintf("w%d-%s", worldSeq, spectypes.BNRoleAttester.String()),
-		res: res, beh: beh, incMax: -1, loadMax: -1, everDec: -1, certTop: -1,
+		res: res, beh: beh, incMax: -1, loadMax: -1, everDec: -1, certTop: -1, load: "ok", loadDenied: -1,
 		startedInc: map[int]bool{}, histInc: map[int]bool{}, late: map[int]lateInfo{}}
-	w.p = w.boot(false)
+	w.p, _ = w.boot(false, "ok")
 	return w
 }
 
+// realStore: the real ibft storage the CODE gets (over the fault-injecting wrapper)
 func (w *world) realStore() qbftstorage.QBFTStore {
 	return ibftstorage.New(w.db, w.prefix)
 }
 
+// rawStore: the same records for the harness's own reads
+func (w *world) rawStore() qbftstorage.QBFTStore {
+	return ibftstorage.New(w.db.Database, w.prefix)
+}
+
 // boot = what the node does at start-up for this validator: runners around new controllers, Validator.Start.
-func (w *world) boot(quiet bool) *proc {
+// rd = the outcome forced on the storage read of Start (LoadHighestInstance); hit = that read was made.
+func (w *world) boot(quiet bool, rd string) (p *proc, hit bool) {
 	ssvtypes.SetDefaultDomain(tu.TestingSSVDomainType) // Validator.Start derives the identifier from the default domain
 	km := tu.NewTestingKeyManager()
 	net := tu.NewTestingNetwork()
 	share := tu.TestingShare(ks)
 	valCheck := specssv.AttesterValueCheckF(km, spectypes.BeaconTestNetwork, tu.TestingValidatorPubKey[:], tu.TestingValidatorIndex, nil)
-	store := &spyStore{QBFTStore: w.realStore(), w: w, quiet: quiet}
+	store := &spyStore{QBFTStore: w.realStore(), raw: w.rawStore(), w: w, quiet: quiet}
 	cfg := &qbft.Config{
 		Signer:                km,
 		SigningPK:             ks.Shares[1].GetPublicKey().Serialize(),
@@ -449,10 +564,21 @@ func (w *world) boot(quiet bool) *proc {
 		DutyRunners:   runner.DutyRunners{spectypes.BNRoleAttester: r},
 		FullNode:      w.full,
 	})
-	if started, err := v.Start(logger); err != nil || !started {
-		panic(fmt.Sprintf("Validator.Start: started=%v err=%v", started, err))
+	hit = true
+	if rd != "" && rd != "ok" {
+		w.db.planReads([]string{rd})
 	}
-	return &proc{v: v, r: r, ctrl: ctrl}
+	started, err := v.Start(logger)
+	if rd != "" && rd != "ok" {
+		hit = len(w.db.unplanReads()) == 1
+	}
+	if err == nil && !started {
+		panic("Validator.Start: not started, no error")
+	}
+	if err != nil {
+		w.res.Counters["validator_start_errors"]++ // a tree in which Start refuses (e.g. the repair): not the pinned code
+	}
+	return &proc{v: v, r: r, ctrl: ctrl, startErr: err}, hit
 }
 
 // ---- projection of the real state onto the spec's variables ----
@@ -530,7 +656,7 @@ func (w *world) observe() obs {
 			o.Run = int(st.RunningInstance.GetHeight())
 		}
 	}
-	s := w.realStore()
+	s := w.rawStore()
 	hi, err := s.GetHighestInstance(msgID[:])
 	if err != nil {
 		panic(err)
@@ -648,6 +774,11 @@ func (w *world) started(s int, call string, hBefore int, hadInst bool, viaRunner
 		w.res.Violate("height-rerun", fmt.Sprintf("%s(%d) started consensus although the controller already held an instance for height %d", call, s, s), w.beh, w.step)
 	case s < hBefore:
 		w.res.Violate("height-rerun", fmt.Sprintf("%s(%d) started consensus below the controller height %d", call, s, hBefore), w.beh, w.step)
+	case viaRunner && w.load == "err" && s <= w.loadMax:
+		// no height-0 excuse: the code was TOLD that its read failed, "Height 0 = nothing yet" does not apply
+		w.res.Violate("height-rerun-after-failed-highest-read", fmt.Sprintf("%s(%d) accepted (controller height %d) by a validator that Validator.Start started although LoadHighestInstance had returned an error; the stored highest decided height is %d", call, s, hBefore, w.loadMax), w.beh, w.step)
+	case viaRunner && w.load == "empty" && s <= w.loadDenied:
+		w.res.Counters["obs_start_at_or_below_stored_height_after_empty_highest_read"]++
 	case viaRunner && s <= w.loadMax && !zeroCase:
 		w.res.Violate("restart-lost-highest", fmt.Sprintf("%s(%d) accepted after a restart although the stored highest decided height is %d", call, s, w.loadMax), w.beh, w.step)
 	case viaRunner && s <= w.incMax && !zeroCase:
@@ -661,10 +792,22 @@ func (w *world) started(s int, call string, hBefore int, hadInst bool, viaRunner
 	}
 }
 
+// executeDutyMsg: as operator/validator.CreateDutyExecuteMsg builds it
+func executeDutyMsg(duty *spectypes.Duty) *queue.DecodedSSVMessage {
+	edd, _ := json.Marshal(ssvtypes.ExecuteDutyData{Duty: duty})
+	ev := &ssvtypes.EventMsg{Type: ssvtypes.ExecuteDuty, Data: edd}
+	data, _ := ev.Encode()
+	d, err := queue.DecodeSSVMessage(&spectypes.SSVMessage{MsgType: message.SSVEventMsgType, MsgID: msgID, Data: data})
+	if err != nil {
+		panic(err)
+	}
+	return d
+}
+
 func (w *world) startDuty(s int) error {
 	hb, had := int(w.p.ctrl.Height), w.hasInstance(s)
 	duty := msgsFor(s).duty
-	err := w.p.v.StartDuty(logger, &duty)
+	err := w.p.v.ProcessMessage(logger, executeDutyMsg(&duty)) // -> OnExecuteDuty -> Start (no-op) -> StartDuty
 	if err == nil {
 		w.started(s, "StartNewDuty", hb, had, true)
 	}
@@ -706,7 +849,7 @@ func (w *world) decided(h, r, n int) error {
 	// as decided in memory (then it learned it earlier) and the height was never learned through a late decided
 	// message (recorded finding: such a height is not covered by the stored highest).
 	// ... and no database write of this call failed: a failed write followed by a restart legitimately forgets.
-	if h >= hb && !memDecided && !lateBefore && len(w.db.fired) == 0 && h > w.certTop {
+	if h >= hb && !memDecided && !lateBefore && len(w.db.fired) == 0 && w.db.firedRead() == "" && h > w.certTop {
 		w.certTop = h
 		w.certDesc = fmt.Sprintf("decided certificate of height %d (round %d, %d signers) processed completely at step %d while the controller height was %d", h, r, n, w.step, hb)
 	}
@@ -716,15 +859,37 @@ func (w *world) decided(h, r, n int) error {
 // faulty runs one call under a plan of failing database writes (write attempts of the call, 1 = its first Set).
 // It returns the attempts that were hit; the call itself goes on - what the code does with the error is its business.
 func (w *world) faulty(plan []int, call func()) (fired []int) {
-	if len(plan) == 0 {
-		call()
-		return []int{}
-	}
-	w.db.plan(plan)
-	call()
-	fired, _ = w.db.unplan()
-	w.res.Counters["write_faults_injected"] += len(fired)
+	fired, _ = w.faultyRW(plan, nil, call)
 	return fired
+}
+
+// faultyRW: the same with forced outcomes of the call's storage reads (by read attempt, 1 = its first Get).
+func (w *world) faultyRW(plan []int, reads []string, call func()) (fired []int, rfired []string) {
+	fired, rfired = []int{}, []string{}
+	if len(reads) > 0 {
+		w.db.planReads(reads)
+	}
+	if len(plan) > 0 {
+		w.db.plan(plan)
+	}
+	call()
+	if len(plan) > 0 {
+		fired, _ = w.db.unplan()
+		w.res.Counters["write_faults_injected"] += len(fired)
+	}
+	if len(reads) > 0 {
+		rfired = w.db.unplanReads()
+		w.res.Counters["read_faults_injected"] += len(rfired)
+	}
+	return fired, rfired
+}
+
+// readPlan: the act's forced read outcome as a plan ("" / "ok" = none)
+func readPlan(kind string) []string {
+	if kind == "" || kind == "ok" {
+		return nil
+	}
+	return []string{kind}
 }
 
 func (w *world) localMsgs(h int) {
@@ -735,13 +900,13 @@ func (w *world) localMsgs(h int) {
 
 // crashing runs one call with the process dying right before its (k+1)-th database write, then restarts on the
 // surviving database. fired=false: the call made at most k writes and completed (no crash; no restart either).
-func (w *world) crashing(k int, call func()) (fired bool) {
+func (w *world) crashing(k int, brd string, call func()) (fired bool) {
 	w.db.arm(k)
 	fired = untilCrash(call)
 	w.db.disarm()
 	if fired {
 		w.res.Counters["crashes_inside_a_save"]++
-		w.restart()
+		w.bootHit = w.restart(brd)
 	}
 	return fired
 }
@@ -766,35 +931,85 @@ func (w *world) onTimeout(h, r int) {
 	}
 }
 
-func (w *world) restart() {
-	hi, err := w.realStore().GetHighestInstance(msgID[:])
+// restart: the process is gone; Validator.Start on the surviving database. rd = the outcome forced on the one storage
+// read Start makes (LoadHighestInstance): "" / "ok" = the real one. Returns whether the forced outcome was hit.
+func (w *world) restart(rd string) (hit bool) {
+	if rd == "" {
+		rd = "ok"
+	}
+	hi, err := w.rawStore().GetHighestInstance(msgID[:])
 	if err != nil {
 		panic(err)
 	}
 	w.restarts++
 	if sh, _, _ := certOf(hi); sh < w.certTop {
-		w.res.Violate("restart-lost-highest", fmt.Sprintf("the incarnation that just died had learned height %d as decided (%s), but the stored highest decided height it leaves behind is %d: the next incarnation resumes below it", w.certTop, w.certDesc, sh), w.beh, w.step)
+		desc := fmt.Sprintf("the incarnation that just died had learned height %d as decided (%s), but the stored highest decided height it leaves behind is %d: the next incarnation resumes below it", w.certTop, w.certDesc, sh)
+		// full node, after a blind incarnation has put a lower record over the highest one: the stored copy of the
+		// higher height keeps UponDecided from saving it again, so the downgrade sticks
+		switch w.downgraded {
+		case "err":
+			w.res.Violate("stored-overwritten-after-failed-highest-read", desc+" - the highest record had been overwritten by a lower one by a validator that was started although the load of its highest instance had FAILED", w.beh, w.step)
+		case "empty":
+			w.res.Counters["obs_overwrite_after_empty_highest_read"]++
+		default:
+			w.res.Violate("restart-lost-highest", desc, w.beh, w.step)
+		}
 	}
 	w.incMax, w.loadMax, w.certTop = -1, -1, -1
+	w.load, w.loadDenied = "ok", -1
 	w.startedInc, w.histInc = map[int]bool{}, map[int]bool{}
-	w.p = w.boot(false)
+	w.p, hit = w.boot(false, rd)
+	if rd != "ok" {
+		w.res.Counters["restarts_with_forced_highest_read_"+rd]++
+		if hit {
+			w.res.Counters["read_faults_injected"]++
+		} else {
+			w.res.Diverge(w.beh, w.step, "restart.brd", rd, "Validator.Start made no storage read")
+		}
+	}
 	if hi == nil {
-		return
+		if hit && (rd == "err" || rd == "garbage") && w.p.startErr == nil {
+			w.load = "err" // nothing stored: nothing to answer for
+		}
+		return hit
 	}
 	h, _, _ := certOf(hi)
-	w.loadMax = h
-	if got := int(w.p.ctrl.Height); got != h {
-		w.res.Violate("restart-lost-highest", fmt.Sprintf("after restart the controller is at height %d, the stored highest decided instance has height %d", got, h), w.beh, w.step)
+	switch {
+	case !hit || rd == "ok":
+		w.loadMax = h
+		if got := int(w.p.ctrl.Height); got != h {
+			w.res.Violate("restart-lost-highest", fmt.Sprintf("after restart the controller is at height %d, the stored highest decided instance has height %d", got, h), w.beh, w.step)
+		}
+	case rd == "empty":
+		// the database denied the record: no code can tell this from a first start (observation only)
+		w.load, w.loadDenied = "empty", h
+		w.res.Counters["obs_restart_on_empty_highest_read"]++
+		return hit
+	default: // "err", "garbage": LoadHighestInstance returned an error
+		w.loadMax = h
+		if w.p.startErr != nil {
+			// Start refused: fine (the property allows refusing to start / retrying). Duties reach OnExecuteDuty,
+			// which retries Start.
+			w.res.Counters["restarts_refused_after_failed_highest_read"]++
+			return hit
+		}
+		w.load = "err"
 	}
-	// a second, throw-away reopen of the same database must refuse every duty up to the stored highest height
-	probe := w.boot(true)
+	// a second, throw-away reopen of the same database (with the same read outcome) must refuse every duty up to the
+	// stored highest height
+	probe, _ := w.boot(true, rd)
 	for s := 0; s <= h && s <= maxH; s++ {
 		duty := msgsFor(s).duty
-		if err := probe.v.StartDuty(logger, &duty); err == nil {
-			w.res.Violate("restart-lost-highest", fmt.Sprintf("a runner reopened on the stored highest decided height %d accepted the duty of slot %d", h, s), w.beh, w.step)
+		if err := probe.v.ProcessMessage(logger, executeDutyMsg(&duty)); err == nil {
+			if w.load == "err" {
+				w.res.Violate("height-rerun-after-failed-highest-read", fmt.Sprintf("a validator reopened on the stored highest decided height %d, whose LoadHighestInstance returned an error (%s) and which Validator.Start started nevertheless, accepted the duty of slot %d", h, rd, s), w.beh, w.step)
+			} else {
+				w.res.Violate("restart-lost-highest", fmt.Sprintf("a runner reopened on the stored highest decided height %d accepted the duty of slot %d", h, s), w.beh, w.step)
+			}
 		}
 	}
 	w.res.Counters["restart_probes"]++
+	return hit
 }
 
 func replay(b vh.Behaviour, res *vh.Result) {
@@ -828,29 +1043,33 @@ func replay(b vh.Behaviour, res *vh.Result) {
 		case "Commit4":
 			_ = w.deliver(msgsFor(vh.Int(a, "h")).c4, "commit message")
 		case "Decided":
-			plan := vh.Ints(a, "fail")
-			if fired := w.faulty(plan, func() { _ = w.decided(vh.Int(a, "h"), vh.Int(a, "r"), vh.Int(a, "n")) }); len(fired) != len(plan) {
+			plan, reads := vh.Ints(a, "fail"), readPlan(vh.Str(a, "rd"))
+			fired, rfired := w.faultyRW(plan, reads, func() { _ = w.decided(vh.Int(a, "h"), vh.Int(a, "r"), vh.Int(a, "n")) })
+			if len(fired) != len(plan) {
 				res.Diverge(b.ID, i, "Decided.fail", plan, fired)
+			}
+			if len(rfired) != len(reads) {
+				res.Diverge(b.ID, i, "Decided.rd", reads, rfired) // a read the spec expects was not made
 			}
 			nontrivial = true
 		case "DecidedCrash":
 			h, r, n, k := vh.Int(a, "h"), vh.Int(a, "r"), vh.Int(a, "n"), vh.Int(a, "k")
-			if !w.crashing(k, func() { _ = w.decided(h, r, n) }) {
+			if !w.crashing(k, vh.Str(a, "brd"), func() { _ = w.decided(h, r, n) }) {
 				res.Diverge(b.ID, i, "DecidedCrash.fired", true, false) // fewer writes than the spec expects
-				w.restart()
+				w.restart(vh.Str(a, "brd"))
 			}
 			nontrivial = true
 		case "LocalMsgsCrash":
 			h, k := vh.Int(a, "h"), vh.Int(a, "k")
-			if !w.crashing(k, func() { w.localMsgs(h) }) {
+			if !w.crashing(k, vh.Str(a, "brd"), func() { w.localMsgs(h) }) {
 				res.Diverge(b.ID, i, "LocalMsgsCrash.fired", true, false)
-				w.restart()
+				w.restart(vh.Str(a, "brd"))
 			}
 			nontrivial = true
 		case "OnTimeout":
 			w.onTimeout(vh.Int(a, "h"), vh.Int(a, "r"))
 		case "Restart":
-			w.restart()
+			w.restart(vh.Str(a, "brd"))
 			nontrivial = true
 		default:
 			panic("unknown action " + name)
@@ -896,7 +1115,30 @@ func record(path string, seed int64, runs int, full bool, res *vh.Result) {
 		tw.Emit(map[string]any{"event": "Reset", "full": full})
 		nsteps := 6 + rng.Intn(12)
 		restartsLeft := 3
-		faultsLeft := 3 // MaxWriteFaults of ControllerTrace_*.cfg
+		faultsLeft := 3     // MaxWriteFaults of ControllerTrace_*.cfg
+		readFaultsLeft := 3 // MaxReadFaults of ControllerTrace_*.cfg
+		kinds := []string{"err", "empty", "garbage"}
+		// the outcome forced on the storage read of a restart (mostly none)
+		bootRead := func() string {
+			if readFaultsLeft == 0 || rng.Intn(4) != 0 {
+				return "ok"
+			}
+			return kinds[rng.Intn(3)]
+		}
+		// the same for the (at most one) storage read of a decided message; only logged when it was hit
+		callRead := func() []string {
+			if readFaultsLeft == 0 || rng.Intn(6) != 0 {
+				return nil
+			}
+			return []string{kinds[rng.Intn(3)]}
+		}
+		rfailOf := func(rd string, hit bool) []string {
+			if rd == "ok" || !hit {
+				return []string{}
+			}
+			readFaultsLeft--
+			return []string{rd}
+		}
 		// a random plan of failing write attempts for one call (mostly none); only the attempts that were hit are logged
 		faultPlan := func() []int {
 			if faultsLeft == 0 || rng.Intn(4) != 0 {
@@ -930,9 +1172,10 @@ func record(path string, seed int64, runs int, full bool, res *vh.Result) {
 				ev = map[string]any{"event": "LocalMsgs", "h": cur, "fail": []int{}}
 				feed := func() { w.localMsgs(cur) }
 				if k := rng.Intn(2); restartsLeft > 0 && rng.Intn(4) == 0 {
-					if w.crashing(k, feed) { // the process died before its (k+1)-th database write
+					brd := bootRead()
+					if w.crashing(k, brd, feed) { // the process died before its (k+1)-th database write
 						restartsLeft--
-						ev = map[string]any{"event": "LocalMsgsCrash", "h": cur, "k": k}
+						ev = map[string]any{"event": "LocalMsgsCrash", "h": cur, "k": k, "rfail": rfailOf(brd, w.bootHit)}
 					}
 				} else {
 					fired := w.faulty(faultPlan(), feed)
@@ -944,16 +1187,19 @@ func record(path string, seed int64, runs int, full bool, res *vh.Result) {
 				ev = map[string]any{"event": "Commit4", "h": cur}
 			case x < 82:
 				h, r, n := rng.Intn(maxH+1), 1+rng.Intn(2), 3+rng.Intn(2)
-				ev = map[string]any{"event": "Decided", "h": h, "r": r, "n": n, "fail": []int{}}
+				ev = map[string]any{"event": "Decided", "h": h, "r": r, "n": n, "fail": []int{}, "rfail": []string{}}
 				if k := rng.Intn(2); restartsLeft > 0 && rng.Intn(4) == 0 {
-					if w.crashing(k, func() { _ = w.decided(h, r, n) }) {
+					brd := bootRead()
+					if w.crashing(k, brd, func() { _ = w.decided(h, r, n) }) {
 						restartsLeft--
-						ev = map[string]any{"event": "DecidedCrash", "h": h, "r": r, "n": n, "k": k}
+						ev = map[string]any{"event": "DecidedCrash", "h": h, "r": r, "n": n, "k": k, "rfail": rfailOf(brd, w.bootHit)}
 					}
 				} else {
-					fired := w.faulty(faultPlan(), func() { _ = w.decided(h, r, n) })
+					fired, rfired := w.faultyRW(faultPlan(), callRead(), func() { _ = w.decided(h, r, n) })
 					faultsLeft -= len(fired)
+					readFaultsLeft -= len(rfired)
 					ev["fail"] = fired
+					ev["rfail"] = rfired
 				}
 			case x < 90:
 				h, r := rng.Intn(maxH+1), 1+rng.Intn(2)
@@ -964,8 +1210,9 @@ func record(path string, seed int64, runs int, full bool, res *vh.Result) {
 				ev = map[string]any{"event": "OnTimeout", "h": h, "r": r}
 			case restartsLeft > 0:
 				restartsLeft--
-				w.restart()
-				ev = map[string]any{"event": "Restart"}
+				brd := bootRead()
+				hit := w.restart(brd)
+				ev = map[string]any{"event": "Restart", "rfail": rfailOf(brd, hit)}
 			default:
 				continue
 			}
